@@ -12,6 +12,320 @@ Definition mk (stream : list N) (sched : list Z) (eofw : bool) : reader :=
    followed by CRLF (header_skip = 82) *)
 Definition sig_ok (sig : list N) : Prop := length sig = 80%nat.
 
+Definition chunks_ok (cs : list (list N)) : Prop :=
+  Forall (fun c => c <> [] /\ blen c < 2 ^ 62) cs.
+
+(* ------------------------------------------------------------------ *)
+(* list helpers                                                        *)
+(* ------------------------------------------------------------------ *)
+
+Lemma blen_app (a b : list N) : blen (a ++ b) = blen a + blen b.
+Proof. unfold blen. rewrite app_length. lia. Qed.
+
+Lemma blen_nonneg (a : list N) : 0 <= blen a.
+Proof. unfold blen. lia. Qed.
+
+Lemma blen_0 (a : list N) : blen a = 0 -> a = [].
+Proof. unfold blen. destruct a as [|x a]; [reflexivity | cbn [length]; lia]. Qed.
+
+Lemma firstn_app_ge {A} (a l : list A) n :
+  (length a <= n)%nat -> firstn n (a ++ l) = a ++ firstn (n - length a) l.
+Proof. intros H. rewrite firstn_app. rewrite firstn_all2 by exact H. reflexivity. Qed.
+
+Lemma skipn_app_ge {A} (a l : list A) n :
+  (length a <= n)%nat -> skipn n (a ++ l) = skipn (n - length a) l.
+Proof. intros H. rewrite skipn_app. rewrite skipn_all2 by exact H. reflexivity. Qed.
+
+Lemma rev_append_app {A} (a b acc : list A) :
+  rev_append (a ++ b) acc = rev_append b (rev_append a acc).
+Proof. revert acc. induction a as [|x a IH]; intros acc; cbn [app rev_append]; auto. Qed.
+
+(* ------------------------------------------------------------------ *)
+(* the inner reader                                                    *)
+(* ------------------------------------------------------------------ *)
+
+Lemma take_upto_spec l : forall n,
+  take_upto l n = (firstn (Z.to_nat n) l, skipn (Z.to_nat n) l).
+Proof.
+  induction l as [|x l IH]; intros n.
+  - cbn [take_upto]. rewrite firstn_nil, skipn_nil. reflexivity.
+  - cbn [take_upto]. destruct (n <=? 0) eqn:E.
+    + replace (Z.to_nat n) with 0%nat by lia. reflexivity.
+    + rewrite IH. replace (Z.to_nat n) with (S (Z.to_nat (n - 1))) by lia. reflexivity.
+Qed.
+
+Definition rcap (want : Z) (sched : list Z) : Z :=
+  match sched with [] => want | c :: _ => Z.min want (Z.max c 1) end.
+
+Definition inner_res (n : nat) (buf : list N) (sched : list Z) (eofw : bool)
+  : list N * rerr * reader :=
+  (firstn n buf,
+   match skipn n buf with [] => if eofw then REOF else RNone | _ => RNone end,
+   mk (skipn n buf) (tl sched) eofw).
+
+Lemma rcap_bounds want sched : 1 <= want -> 1 <= rcap want sched <= want.
+Proof. intros H. unfold rcap. destruct sched; lia. Qed.
+
+Lemma inner_read_ne want buf sched eofw :
+  buf <> [] ->
+  inner_read want (mk buf sched eofw) = inner_res (Z.to_nat (rcap want sched)) buf sched eofw.
+Proof.
+  intros H. unfold inner_read, inner_res, rcap, mk. cbn [rd_buf rd_sched rd_eof_with_data].
+  destruct buf as [|b buf]; [congruence|].
+  rewrite take_upto_spec. reflexivity.
+Qed.
+
+(* a read of at most [blen pre] bytes from a buffer [pre ++ rest] returns a non-empty prefix
+   of [pre], whatever the schedule *)
+Lemma inner_read_prefix k pre rest sched eofw :
+  1 <= k <= blen pre ->
+  exists out pre' sched' e,
+    inner_read k (mk (pre ++ rest) sched eofw) = (out, e, mk (pre' ++ rest) sched' eofw)
+    /\ pre = out ++ pre' /\ out <> [] /\ blen out <= k
+    /\ (pre' ++ rest <> [] -> e = RNone).
+Proof.
+  intros Hk.
+  assert (Hne : pre ++ rest <> []).
+  { destruct pre; [unfold blen in Hk; cbn [length] in Hk; lia | discriminate]. }
+  rewrite (inner_read_ne k _ sched eofw Hne).
+  pose proof (rcap_bounds k sched (proj1 Hk)) as Hc.
+  set (n := Z.to_nat (rcap k sched)).
+  assert (Hn : (1 <= n <= length pre)%nat) by (unfold blen in Hk; lia).
+  unfold inner_res.
+  assert (Hf : firstn n (pre ++ rest) = firstn n pre).
+  { rewrite firstn_app. replace (n - length pre)%nat with 0%nat by lia.
+    cbn [firstn]. apply app_nil_r. }
+  assert (Hs : skipn n (pre ++ rest) = skipn n pre ++ rest).
+  { rewrite skipn_app. replace (n - length pre)%nat with 0%nat by lia. reflexivity. }
+  rewrite Hf, Hs.
+  exists (firstn n pre), (skipn n pre), (tl sched).
+  eexists. split; [reflexivity|].
+  split; [symmetry; apply firstn_skipn|].
+  split.
+  { intros E. apply (f_equal (@length N)) in E. rewrite firstn_length in E. cbn [length] in E. lia. }
+  split.
+  { unfold blen. rewrite firstn_length. lia. }
+  intros Hne'. destruct (skipn n pre ++ rest); [congruence | reflexivity].
+Qed.
+
+Lemma inner_read_one c rest sched eofw :
+  exists e, inner_read 1 (mk (c :: rest) sched eofw) = ([c], e, mk rest (tl sched) eofw).
+Proof.
+  rewrite inner_read_ne by discriminate.
+  replace (Z.to_nat (rcap 1 sched)) with 1%nat by (unfold rcap; destruct sched; lia).
+  unfold inner_res. cbn [firstn skipn]. eexists. reflexivity.
+Qed.
+
+(* ------------------------------------------------------------------ *)
+(* discard                                                             *)
+(* ------------------------------------------------------------------ *)
+
+Lemma discard_eq fuel k r :
+  discard fuel k r =
+  if k <=? 0 then (true, r) else
+  match fuel with
+  | O => (false, r)
+  | S f =>
+      let '(out, e, r') := inner_read k r in
+      let got := blen out in
+      if got =? k then (true, r')
+      else match e with
+           | RNone => if got =? 0 then (false, r') else discard f (k - got) r'
+           | _ => (false, r')
+           end
+  end.
+Proof. destruct fuel; reflexivity. Qed.
+
+(* skipping k available bytes succeeds with fuel >= k and removes exactly those bytes *)
+Lemma discard_spec : forall fuel k pre rest sched eofw,
+  blen pre = k -> (Z.to_nat k <= fuel)%nat ->
+  exists sched', discard fuel k (mk (pre ++ rest) sched eofw) = (true, mk rest sched' eofw).
+Proof.
+  induction fuel as [|f IH]; intros k pre rest sched eofw Hk Hf; rewrite discard_eq.
+  - assert (k = 0) by (pose proof (blen_nonneg pre); lia). subst k.
+    rewrite (blen_0 pre H). exists sched. reflexivity.
+  - destruct (k <=? 0) eqn:E.
+    + assert (blen pre = 0) by (pose proof (blen_nonneg pre); lia).
+      rewrite (blen_0 pre H). exists sched. reflexivity.
+    + destruct (inner_read_prefix k pre rest sched eofw) as (out & pre' & sched' & e & Hir & Hpre & Hout & Hlen & He).
+      { lia. }
+      rewrite Hir. cbv beta iota zeta.
+      assert (Hb : blen pre = blen out + blen pre') by (rewrite Hpre; apply blen_app).
+      destruct (blen out =? k) eqn:Eg.
+      * assert (pre' = []) by (apply blen_0; lia). subst pre'.
+        exists sched'. reflexivity.
+      * assert (Hp : pre' <> []).
+        { intros ->. unfold blen in Hb at 3. cbn [length] in Hb. lia. }
+        rewrite He by (destruct pre'; [congruence | discriminate]).
+        assert (blen out <> 0).
+        { intros E0. apply blen_0 in E0. congruence. }
+        destruct (blen out =? 0) eqn:E0; [lia|].
+        pose proof (blen_nonneg out).
+        apply IH; lia.
+Qed.
+
+(* ------------------------------------------------------------------ *)
+(* the hex size field                                                  *)
+(* ------------------------------------------------------------------ *)
+
+Lemma hexval_hexdig d : 0 <= d < 16 -> hexval (hexdig d) = Some d.
+Proof.
+  intros H.
+  assert (E : d = 0 \/ d = 1 \/ d = 2 \/ d = 3 \/ d = 4 \/ d = 5 \/ d = 6 \/ d = 7 \/
+              d = 8 \/ d = 9 \/ d = 10 \/ d = 11 \/ d = 12 \/ d = 13 \/ d = 14 \/ d = 15) by lia.
+  repeat (destruct E as [E|E]; [subst d; reflexivity|]). subst d; reflexivity.
+Qed.
+
+Lemma hexval_59 : hexval 59 = None.
+Proof. reflexivity. Qed.
+
+Lemma scan_hex_S f c rest sched eofw acc :
+  scan_hex (S f) (mk (c :: rest) sched eofw) acc =
+  match hexval c with
+  | Some v => scan_hex f (mk rest (tl sched) eofw)
+                (Some (match acc with Some a => a * 16 + v | None => v end))
+  | None => if N.eqb c 59 then (acc, mk rest (tl sched) eofw) else (None, mk rest (tl sched) eofw)
+  end.
+Proof.
+  destruct (inner_read_one c rest sched eofw) as [e He].
+  cbn [scan_hex]. rewrite He. reflexivity.
+Qed.
+
+Lemma scan_hex_nil f sched eofw acc :
+  scan_hex (S f) (mk [] sched eofw) acc = (None, mk [] sched eofw).
+Proof. reflexivity. Qed.
+
+Definition stepo (a : option Z) (d : Z) : option Z :=
+  Some (match a with Some a => a * 16 + d | None => d end).
+
+Lemma scan_hex_digits : forall ds fuel rest sched eofw acc,
+  Forall (fun d => 0 <= d < 16) ds -> (length ds < fuel)%nat ->
+  exists sched',
+    scan_hex fuel (mk (map hexdig ds ++ 59%N :: rest) sched eofw) acc
+    = (fold_left stepo ds acc, mk rest sched' eofw).
+Proof.
+  induction ds as [|d ds IH]; intros fuel rest sched eofw acc Hds Hf;
+    (destruct fuel as [|f]; [cbn [length] in Hf; lia|]).
+  - cbn [map app fold_left]. rewrite scan_hex_S, hexval_59, N.eqb_refl.
+    eexists. reflexivity.
+  - cbn [map app fold_left]. rewrite scan_hex_S.
+    rewrite hexval_hexdig by (inversion Hds; assumption).
+    apply IH; [inversion Hds; assumption | cbn [length] in Hf; lia].
+Qed.
+
+(* the digit list computed by hex_fuel *)
+Fixpoint hexds (fuel : nat) (z : Z) (acc : list Z) : list Z :=
+  match fuel with
+  | O => acc
+  | S f => if z <? 16 then z :: acc else hexds f (z / 16) (z mod 16 :: acc)
+  end.
+
+Lemma hex_fuel_map fuel : forall z acc,
+  hex_fuel fuel z (map hexdig acc) = map hexdig (hexds fuel z acc).
+Proof.
+  induction fuel as [|f IH]; intros z acc; cbn [hex_fuel hexds]; [reflexivity|].
+  destruct (z <? 16); [reflexivity|]. rewrite <- IH. reflexivity.
+Qed.
+
+Lemma hex_of_Z_eq n :
+  hex_of_Z n = map hexdig (hexds (S (Z.to_nat (Z.log2 n))) n []).
+Proof. exact (hex_fuel_map _ n []). Qed.
+
+Lemma hexds_range fuel : forall z acc,
+  0 <= z -> Forall (fun d => 0 <= d < 16) acc -> Forall (fun d => 0 <= d < 16) (hexds fuel z acc).
+Proof.
+  induction fuel as [|f IH]; intros z acc Hz Ha; cbn [hexds]; [assumption|].
+  destruct (z <? 16) eqn:E.
+  - constructor; [lia | assumption].
+  - apply IH.
+    + apply Z.div_pos; lia.
+    + constructor; [apply Z.mod_pos_bound; lia | assumption].
+Qed.
+
+Lemma hexds_len fuel : forall z acc k,
+  0 <= z < 16 ^ Z.of_nat k -> (1 <= k)%nat ->
+  (length (hexds fuel z acc) <= length acc + k)%nat.
+Proof.
+  induction fuel as [|f IH]; intros z acc k Hz Hk; cbn [hexds]; [lia|].
+  destruct (z <? 16) eqn:E.
+  - cbn [length]. lia.
+  - destruct k as [|k]; [lia|].
+    destruct k as [|k].
+    + change (16 ^ Z.of_nat 1) with 16 in Hz. lia.
+    + assert (Hlt : z / 16 < 16 ^ Z.of_nat (S k)).
+      { apply Z.div_lt_upper_bound; [lia|].
+        rewrite (Nat2Z.inj_succ (S k)), Z.pow_succ_r in Hz by lia. lia. }
+      assert (0 <= z / 16) by (apply Z.div_pos; lia).
+      specialize (IH (z / 16) (z mod 16 :: acc) (S k)).
+      cbn [length] in IH. lia.
+Qed.
+
+Fixpoint evalZ (a : Z) (ds : list Z) : Z :=
+  match ds with [] => a | d :: ds => evalZ (a * 16 + d) ds end.
+
+Lemma hexds_val fuel : forall z acc,
+  0 <= z < 16 ^ Z.of_nat fuel -> evalZ 0 (hexds fuel z acc) = evalZ z acc.
+Proof.
+  induction fuel as [|f IH]; intros z acc Hz; cbn [hexds].
+  - change (16 ^ Z.of_nat 0) with 1 in Hz. replace z with 0 by lia. reflexivity.
+  - destruct (z <? 16) eqn:E.
+    + cbn [evalZ]. replace (0 * 16 + z) with z by lia. reflexivity.
+    + rewrite IH.
+      * cbn [evalZ]. f_equal. pose proof (Z.div_mod z 16). lia.
+      * split; [apply Z.div_pos; lia|].
+        apply Z.div_lt_upper_bound; [lia|].
+        rewrite Nat2Z.inj_succ, Z.pow_succ_r in Hz by lia. lia.
+Qed.
+
+Lemma hexds_ne fuel : forall z acc, hexds (S fuel) z acc <> [].
+Proof.
+  induction fuel as [|f IH]; intros z acc.
+  - cbn [hexds]. destruct (z <? 16); discriminate.
+  - change (hexds (S (S f)) z acc)
+      with (if z <? 16 then z :: acc else hexds (S f) (z / 16) (z mod 16 :: acc)).
+    destruct (z <? 16); [discriminate | apply IH].
+Qed.
+
+Lemma fold_stepo_some ds : forall a, fold_left stepo ds (Some a) = Some (evalZ a ds).
+Proof. induction ds as [|d ds IH]; intros a; cbn [fold_left evalZ]; [reflexivity|]. apply IH. Qed.
+
+Lemma fold_stepo_none ds : ds <> [] -> fold_left stepo ds None = Some (evalZ 0 ds).
+Proof.
+  destruct ds as [|d ds]; [congruence|]. intros _.
+  cbn [fold_left evalZ]. unfold stepo at 2. rewrite fold_stepo_some.
+  replace (0 * 16 + d) with d by lia. reflexivity.
+Qed.
+
+Lemma hex_fuel_enough n : 0 <= n -> n < 16 ^ Z.of_nat (S (Z.to_nat (Z.log2 n))).
+Proof.
+  intros Hn. pose proof (Z.log2_nonneg n) as Hl.
+  replace (Z.of_nat (S (Z.to_nat (Z.log2 n)))) with (Z.succ (Z.log2 n)) by lia.
+  destruct (Z.eq_dec n 0) as [->|Hne].
+  - apply Z.pow_pos_nonneg; lia.
+  - destruct (Z.log2_spec n) as [_ H2]; [lia|].
+    assert (2 ^ Z.succ (Z.log2 n) <= 16 ^ Z.succ (Z.log2 n)) by (apply Z.pow_le_mono_l; lia).
+    lia.
+Qed.
+
+(* main fact about the size field: at most 19 hex digits are parsed back exactly *)
+Lemma scan_hex_hex n rest sched eofw :
+  0 <= n < 16 ^ 19 ->
+  exists sched',
+    scan_hex 20 (mk (hex_of_Z n ++ 59%N :: rest) sched eofw) None = (Some n, mk rest sched' eofw).
+Proof.
+  intros Hn. rewrite hex_of_Z_eq.
+  set (ds := hexds (S (Z.to_nat (Z.log2 n))) n []).
+  destruct (scan_hex_digits ds 20 rest sched eofw None) as [sched' Hs].
+  - apply hexds_range; [lia | constructor].
+  - pose proof (hexds_len (S (Z.to_nat (Z.log2 n))) n [] 19) as H.
+    cbn [length] in H. fold ds in H.
+    assert (length ds <= 0 + 19)%nat by (apply H; [exact Hn | lia]). lia.
+  - exists sched'. rewrite Hs. f_equal.
+    rewrite fold_stepo_none by apply hexds_ne.
+    unfold ds. rewrite hexds_val by (split; [lia | apply hex_fuel_enough; lia]).
+    reflexivity.
+Qed.
+
 (* the hex size field round-trips *)
 Lemma scan_hex_of_Z n rest sched eofw :
   0 <= n ->
@@ -19,28 +333,228 @@ Lemma scan_hex_of_Z n rest sched eofw :
     scan_hex 20 (mk (hex_of_Z n ++ 59%N :: rest) sched eofw) None = (Some n, mk rest sched' eofw)
     \/ n >= 16 ^ 19.     (* more than 19 hex digits does not occur: chunk sizes are < 2^63 *)
 Proof.
-Admitted.
+  intros Hn. destruct (Z_lt_le_dec n (16 ^ 19)) as [Hlt|Hge].
+  - destruct (scan_hex_hex n rest sched eofw) as [sched' H]; [lia|].
+    exists sched'. left. exact H.
+  - exists sched. right. lia.
+Qed.
 
-(* consumer ReadAll(reader, declared size): mem, bolt and (after the fix) fs backends *)
-Theorem decode_readall_any_schedule sig chunks sched eofw :
-  sig_ok sig -> Forall (fun c => c <> [] /\ blen c < 2 ^ 62) chunks ->
-  decode_readall (mk (encode sig chunks) sched eofw) (blen (concat chunks)) = DOk (concat chunks).
+(* ------------------------------------------------------------------ *)
+(* the encoder                                                         *)
+(* ------------------------------------------------------------------ *)
+
+Lemma encode_nil_eq sig :
+  encode sig [] = hex_of_Z 0 ++ 59%N :: (sig ++ crlf) ++ crlf.
+Proof. cbn [encode]. unfold chunk_header. rewrite <- !app_assoc. reflexivity. Qed.
+
+Lemma encode_cons_eq sig c cs :
+  encode sig (c :: cs) = hex_of_Z (blen c) ++ 59%N :: (sig ++ crlf) ++ (c ++ crlf ++ encode sig cs).
+Proof. cbn [encode]. unfold chunk_header. rewrite <- !app_assoc. reflexivity. Qed.
+
+Lemma blen_sig_crlf sig : sig_ok sig -> blen (sig ++ crlf) = header_skip.
+Proof. intros H. unfold blen, sig_ok in *. rewrite app_length, H. reflexivity. Qed.
+
+Lemma concat_le_encode sig cs : (length (concat cs) <= length (encode sig cs))%nat.
 Proof.
-Admitted.
+  induction cs as [|c cs IH]; cbn [concat encode]; [cbn [length]; lia|].
+  rewrite !app_length. lia.
+Qed.
 
-(* consumer copy loop with any buffer size >= 1 *)
-Theorem decode_copy_any_schedule sig chunks sched eofw bufsz :
-  sig_ok sig -> Forall (fun c => c <> [] /\ blen c < 2 ^ 62) chunks -> 1 <= bufsz ->
-  decode_copy (mk (encode sig chunks) sched eofw) bufsz = concat chunks.
+(* ------------------------------------------------------------------ *)
+(* the decoder invariant between loop iterations / Read calls          *)
+(* [cinv sig c P]: the chunked reader [c] is in a consistent position of an encoded stream  *)
+(* whose still undelivered payload is [P]                              *)
+(* ------------------------------------------------------------------ *)
+
+Inductive cinv (sig : list N) : creader -> list N -> Prop :=
+| inv_start cs sched eofw :
+    chunks_ok cs ->
+    cinv sig {| cr_inner := mk (encode sig cs) sched eofw; cr_remain := 0; cr_not_first := false |}
+         (concat cs)
+| inv_mid d cs sched eofw :
+    chunks_ok cs ->
+    cinv sig {| cr_inner := mk (d ++ crlf ++ encode sig cs) sched eofw; cr_remain := blen d;
+                cr_not_first := true |}
+         (d ++ concat cs)
+| inv_end sched eofw :
+    cinv sig {| cr_inner := mk crlf sched eofw; cr_remain := 0; cr_not_first := true |} [].
+
+Lemma cinv_cnew sig cs sched eofw :
+  chunks_ok cs -> cinv sig (cnew (mk (encode sig cs) sched eofw)) (concat cs).
+Proof. intros H. unfold cnew. apply inv_start. exact H. Qed.
+
+(* parsing one chunk header "<hex>;sig CRLF" *)
+Lemma parse_header sig cs sched eofw :
+  sig_ok sig -> chunks_ok cs ->
+  exists n r2 buf' sched',
+    scan_hex 20 (mk (encode sig cs) sched eofw) None = (Some n, r2)
+    /\ discard 100 header_skip r2 = (true, mk buf' sched' eofw)
+    /\ cinv sig {| cr_inner := mk buf' sched' eofw; cr_remain := n; cr_not_first := true |} (concat cs)
+    /\ (length buf' < length (encode sig cs))%nat.
 Proof.
-Admitted.
+  intros Hsig Hcs. destruct cs as [|c cs].
+  - rewrite encode_nil_eq.
+    destruct (scan_hex_hex 0 ((sig ++ crlf) ++ crlf) sched eofw) as [s1 H1]; [split; [lia|reflexivity]|].
+    destruct (discard_spec 100 header_skip (sig ++ crlf) crlf s1 eofw) as [s2 H2].
+    { apply blen_sig_crlf; exact Hsig. }
+    { unfold header_skip. lia. }
+    exists 0, (mk ((sig ++ crlf) ++ crlf) s1 eofw), crlf, s2.
+    split; [exact H1|]. split; [exact H2|]. split; [apply inv_end|].
+    rewrite (app_length (hex_of_Z 0)). cbn [length]. rewrite !app_length. lia.
+  - rewrite encode_cons_eq.
+    assert (Hc : c <> [] /\ blen c < 2 ^ 62) by (inversion Hcs; assumption).
+    assert (Hcs' : chunks_ok cs) by (inversion Hcs; assumption).
+    destruct (scan_hex_hex (blen c) ((sig ++ crlf) ++ c ++ crlf ++ encode sig cs) sched eofw) as [s1 H1].
+    { split; [apply blen_nonneg|]. assert (2 ^ 62 < 16 ^ 19) by reflexivity. lia. }
+    destruct (discard_spec 100 header_skip (sig ++ crlf) (c ++ crlf ++ encode sig cs) s1 eofw) as [s2 H2].
+    { apply blen_sig_crlf; exact Hsig. }
+    { unfold header_skip. lia. }
+    exists (blen c), (mk ((sig ++ crlf) ++ c ++ crlf ++ encode sig cs) s1 eofw),
+           (c ++ crlf ++ encode sig cs), s2.
+    split; [exact H1|]. split; [exact H2|]. split.
+    + cbn [concat]. apply inv_mid. exact Hcs'.
+    + rewrite (app_length (hex_of_Z (blen c))). cbn [length].
+      rewrite (app_length (sig ++ crlf)). lia.
+Qed.
 
-(* a declared decoded length different from the payload length is never accepted *)
-Theorem decode_wrong_length_rejected sig chunks sched eofw declared :
-  sig_ok sig -> Forall (fun c => c <> [] /\ blen c < 2 ^ 62) chunks ->
-  0 <= declared -> declared <> blen (concat chunks) ->
-  forall p, decode_readall (mk (encode sig chunks) sched eofw) declared <> DOk p.
+Lemma cread_S f want c racc :
+  cread (S f) want c racc =
+  if want <=? 0 then (racc, RNone, c) else
+      if want <? cr_remain c then
+        let '(out, e, r') := inner_read want (cr_inner c) in
+        let c' := {| cr_inner := r'; cr_remain := cr_remain c - blen out; cr_not_first := cr_not_first c |} in
+        match e with
+        | RNone => cread f (want - blen out) c' (rev_append out racc)
+        | _ => (rev_append out racc, e, c')
+        end
+      else if 0 <? cr_remain c then
+        let '(out, e, r') := inner_read (cr_remain c) (cr_inner c) in
+        let c' := {| cr_inner := r'; cr_remain := cr_remain c - blen out; cr_not_first := cr_not_first c |} in
+        match e with
+        | RNone => cread f (want - blen out) c' (rev_append out racc)
+        | _ => (rev_append out racc, e, c')
+        end
+      else
+        let '(ok1, r1) := if cr_not_first c then discard 4 2 (cr_inner c) else (true, cr_inner c) in
+        if negb ok1 then (racc, REOF, {| cr_inner := r1; cr_remain := cr_remain c; cr_not_first := true |}) else
+        match scan_hex 20 r1 None with
+        | (None, r2) => (racc, REOF, {| cr_inner := r2; cr_remain := cr_remain c; cr_not_first := true |})
+        | (Some sz, r2) =>
+            let '(ok3, r3) := discard 100 header_skip r2 in
+            let c' := {| cr_inner := r3; cr_remain := sz; cr_not_first := true |} in
+            if negb ok3 then (racc, REOF, c') else cread f want c' racc
+        end.
+Proof. reflexivity. Qed.
+
+(* one loop iteration inside a chunk: both data branches read k = min(want, remain) bytes *)
+Lemma cread_data f want c racc :
+  1 <= want -> 0 < cr_remain c ->
+  cread (S f) want c racc =
+  let '(out, e, r') := inner_read (Z.min want (cr_remain c)) (cr_inner c) in
+  let c' := {| cr_inner := r'; cr_remain := cr_remain c - blen out; cr_not_first := cr_not_first c |} in
+  match e with
+  | RNone => cread f (want - blen out) c' (rev_append out racc)
+  | _ => (rev_append out racc, e, c')
+  end.
 Proof.
-Admitted.
+  intros Hw Hr. rewrite cread_S.
+  destruct (want <=? 0) eqn:E0; [lia|].
+  destruct (want <? cr_remain c) eqn:E1.
+  - replace (Z.min want (cr_remain c)) with want by lia. reflexivity.
+  - destruct (0 <? cr_remain c) eqn:E2; [|lia].
+    replace (Z.min want (cr_remain c)) with (cr_remain c) by lia. reflexivity.
+Qed.
 
-Print Assumptions decode_readall_any_schedule.
+(* one loop iteration at a chunk boundary *)
+Lemma cread_header f want c racc :
+  1 <= want -> cr_remain c = 0 ->
+  cread (S f) want c racc =
+  let '(ok1, r1) := if cr_not_first c then discard 4 2 (cr_inner c) else (true, cr_inner c) in
+  if negb ok1 then (racc, REOF, {| cr_inner := r1; cr_remain := cr_remain c; cr_not_first := true |}) else
+  match scan_hex 20 r1 None with
+  | (None, r2) => (racc, REOF, {| cr_inner := r2; cr_remain := cr_remain c; cr_not_first := true |})
+  | (Some sz, r2) =>
+      let '(ok3, r3) := discard 100 header_skip r2 in
+      let c' := {| cr_inner := r3; cr_remain := sz; cr_not_first := true |} in
+      if negb ok3 then (racc, REOF, c') else cread f want c' racc
+  end.
+Proof.
+  intros Hw Hr. rewrite cread_S.
+  destruct (want <=? 0) eqn:E0; [lia|].
+  destruct (want <? cr_remain c) eqn:E1; [lia|].
+  destruct (0 <? cr_remain c) eqn:E2; [lia|]. reflexivity.
+Qed.
+
+(* functional specification of chunkedReader.Read: from an invariant state with remaining
+   payload P, a Read with a buffer of [want] bytes delivers exactly the first min(want,|P|)
+   bytes of P, with a nil error when the buffer was filled and io.EOF when the payload ran
+   out first; fuel larger than the length of the inner buffer suffices *)
+Lemma cread_spec sig : sig_ok sig -> forall fuel c P want racc,
+  cinv sig c P -> (length (rd_buf (cr_inner c)) < fuel)%nat ->
+  exists c', cread fuel want c racc =
+     (rev_append (firstn (Z.to_nat want) P) racc, (if blen P <? want then REOF else RNone), c')
+     /\ (want <= blen P -> cinv sig c' (skipn (Z.to_nat want) P)).
+Proof.
+  intros Hsig. induction fuel as [|f IH]; intros c P want racc Hinv Hfuel; [lia|].
+  destruct (want <=? 0) eqn:Ew.
+  { rewrite cread_S, Ew. exists c.
+    replace (Z.to_nat want) with 0%nat by lia. cbn [firstn skipn rev_append].
+    pose proof (blen_nonneg P). destruct (blen P <? want) eqn:E; [lia|].
+    split; [reflexivity | intros _; exact Hinv]. }
+  assert (Hw : 1 <= want) by lia.
+  destruct Hinv as [cs sched eofw Hcs | d cs sched eofw Hcs | sched eofw].
+  - (* before the first header *)
+    rewrite cread_header by (auto; reflexivity).
+    cbn [cr_inner cr_remain cr_not_first]. cbn [cr_inner rd_buf mk] in Hfuel.
+    destruct (parse_header sig cs sched eofw Hsig Hcs) as (n & r2 & buf' & s' & Hs & Hd & Hi & Hl).
+    rewrite Hs, Hd. cbn [negb].
+    apply IH; [exact Hi|]. cbn [cr_inner rd_buf mk]. unfold mk in Hfuel; cbn [rd_buf] in Hfuel. lia.
+  - destruct (Z.eq_dec (blen d) 0) as [Hd0|Hd0].
+    + (* end of a chunk: CRLF then the next header *)
+      apply blen_0 in Hd0. subst d.
+      rewrite cread_header by (auto; reflexivity).
+      cbn [cr_inner cr_remain cr_not_first app].
+      unfold mk in Hfuel; cbn [cr_inner rd_buf app] in Hfuel. rewrite app_length in Hfuel.
+      destruct (discard_spec 4 2 crlf (encode sig cs) sched eofw) as [s1 H1]; [reflexivity | lia |].
+      rewrite H1. cbn [negb].
+      destruct (parse_header sig cs s1 eofw Hsig Hcs) as (n & r2 & buf' & s' & Hs & Hd & Hi & Hl).
+      rewrite Hs, Hd. cbn [negb].
+      apply IH; [exact Hi|]. unfold mk; cbn [cr_inner rd_buf]. lia.
+    + (* inside a chunk *)
+      pose proof (blen_nonneg d) as Hdn.
+      rewrite cread_data by (cbn [cr_remain]; lia).
+      cbn [cr_inner cr_remain cr_not_first].
+      destruct (inner_read_prefix (Z.min want (blen d)) d (crlf ++ encode sig cs) sched eofw)
+        as (out & d' & s' & e & Hir & Hd & Hout & Hlen & He); [lia|].
+      rewrite Hir. cbv beta iota zeta.
+      rewrite He by (unfold crlf; destruct d'; discriminate).
+      assert (Hb : blen d = blen out + blen d') by (rewrite Hd; apply blen_app).
+      replace (blen d - blen out) with (blen d') by lia.
+      assert (Hout1 : 1 <= blen out).
+      { pose proof (blen_nonneg out). destruct (Z.eq_dec (blen out) 0) as [E|E]; [|lia].
+        apply blen_0 in E. congruence. }
+      destruct (IH {| cr_inner := mk (d' ++ crlf ++ encode sig cs) s' eofw; cr_remain := blen d';
+                      cr_not_first := true |} (d' ++ concat cs) (want - blen out) (rev_append out racc))
+        as (c' & Hc & Hi).
+      { apply inv_mid. exact Hcs. }
+      { unfold mk in *; cbn [cr_inner rd_buf] in *. rewrite Hd in Hfuel.
+        rewrite <- app_assoc, app_length in Hfuel. unfold blen in Hout1. lia. }
+      exists c'. rewrite Hc. subst d. rewrite <- !app_assoc.
+      assert (Hlo : (length out <= Z.to_nat want)%nat) by (unfold blen in *; lia).
+      assert (Hn : Z.to_nat (want - blen out) = (Z.to_nat want - length out)%nat) by (unfold blen; lia).
+      rewrite (firstn_app_ge out _ _ Hlo), (skipn_app_ge out _ _ Hlo), rev_append_app, Hn.
+      rewrite (blen_app out). split.
+      * f_equal. f_equal.
+        destruct (blen (d' ++ concat cs) <? want - blen out) eqn:E1;
+          destruct (blen out + blen (d' ++ concat cs) <? want) eqn:E2; try reflexivity; lia.
+      * intros Hle. rewrite <- Hn. apply Hi. lia.
+  - (* after the final zero chunk *)
+    rewrite cread_header by (auto; reflexivity).
+    cbn [cr_inner cr_remain cr_not_first].
+    destruct (discard_spec 4 2 crlf [] sched eofw) as [s1 H1]; [reflexivity | lia |].
+    rewrite app_nil_r in H1. rewrite H1. cbn [negb].
+    rewrite scan_hex_nil.
+    eexists. rewrite firstn_nil. cbn [rev_append]. change (blen []) with 0.
+    destruct (0 <? want) eqn:E; [|lia].
+    split; [reflexivity | intros; lia].
+Qed.
